@@ -117,7 +117,7 @@ def reg_serialize_raw(reg, prop):
             "lemmas": [f"implies(0 <= j0 and j0 < _i, writer.buffer[6 + len(val(msg.raw_body)) + 4 * j0 + {t}] == "
                        f"_b0[6 + len(val(msg.raw_body)) + 4 * j0 + {t}])" for t in range(4)]
                       + ["len(writer.buffer) == len(_b0) + 4"]
-                      + [f"writer.buffer[len(_b0) + {t}] == (ack // {256 ** (3 - t)}) % 256" for t in range(4)],
+                      + ["be32at(writer.buffer, len(_b0)) == ack"],
             "inv": [
             "writer.endianness == '!'",
             "len(writer.buffer) == 6 + len(val(msg.raw_body)) + 4 * _i",
